@@ -74,6 +74,11 @@ func (x *Exec) callFunction(st *State, ins ssa.Instruction, fn *ssa.Function, bi
 		x.inline(st, ins, fn, bindings, args, cont)
 		return
 	}
+	if fn.Name() == "init" && fn.Synthetic != "" {
+		// package initialisers of imported packages: their effect is summarised by global invariants
+		cont(st, Value{})
+		return
+	}
 	if fn.Pkg != nil && x.P.IsRepoPkg(fn.Pkg.Pkg.Path()) {
 		fc := x.P.Contracts[full]
 		if fc == nil {
@@ -219,6 +224,9 @@ func (x *Exec) callByContract(st *State, ins ssa.Instruction, full string, fc *F
 		x.emit(st, "requires", label+":"+lab, g, c.Src)
 		st.Assume(g)
 	}
+	if !fc.Pure {
+		x.emitSmoke(st, "before "+label)
+	}
 	pre := st.clone()
 	preAlloc := st.AllocTerm()
 	// results
@@ -257,7 +265,7 @@ func (x *Exec) callByContract(st *State, ins ssa.Instruction, full string, fc *F
 	for _, c := range fc.Ensures {
 		st.Assume(x.evalBool(post, c.E, c))
 	}
-	if extern && !fc.Pure {
+	if !fc.Pure {
 		x.emitSmoke(st, "after "+label)
 	}
 	cont(st, res)
